@@ -50,17 +50,21 @@ def cmdHasRules (d : DictFn) (app cmd flags : Nat) : Bool :=
   | some (nreq, nans) => (if isRequest flags then nreq else nans) != 0
   | none => false
 
+/-- a container (message body or grouped payload) is well formed for the typing `ty`: the
+    Length-only walk succeeds, every leaf payload is a well-formed value of its type, padding
+    octets are present and zero -/
+def wfBody (ty : Nat → Nat → Nat) (body : Bytes) : Bool :=
+  let isG : Nat → Nat → Bool := fun c v => ty c v = T.grouped
+  match frames isG (body.length + 1) body with
+  | .ok fs => wfFrames ty fs && wfPadding isG (body.length + 1) body
+  | _ => false
+
 /-- C01 (wire direction): the byte string is a well-formed Diameter message for dictionary `d` -/
 def wfWire (d : DictFn) (bs : Bytes) : Bool :=
   if bs.length < 20 then false else
   match decodeHeader (bs.take 20) with
   | .ok h =>
-    let body := bs.drop 20
-    let isG : Nat → Nat → Bool := fun c v => d.avpType h.app c v = T.grouped
-    decide (h.len = bs.length) && cmdHasRules d h.app h.cmd h.flags &&
-    (match frames isG (body.length + 1) body with
-     | .ok fs => wfFrames (d.avpType h.app) fs && wfPadding isG (body.length + 1) body
-     | _ => false)
+    decide (h.len = bs.length) && cmdHasRules d h.app h.cmd h.flags && wfBody (d.avpType h.app) (bs.drop 20)
   | _ => false
 
 /-! API direction -/
